@@ -34,6 +34,9 @@ pub enum Op {
   Unsubscribe,
   /// unsubscribe the source subject A itself (through a clone)
   UnsubSubject,
+  /// ask the pre-made subscription whether it is closed (only in scripts
+  /// without `Unsubscribe`: the handle stays where it is)
+  IsClosed,
 }
 
 #[derive(Clone, Copy, Debug, PartialEq, Eq)]
@@ -181,6 +184,8 @@ struct Call {
 }
 
 struct Shared {
+  /// answers of `IsClosed`: (answer, call start, call end)
+  closed_samples: Mutex<Vec<(bool, u64, u64)>>,
   a: Subj,
   b: Subj,
   pipe_src: (Shape, Arc<AtomicUsize>),
@@ -222,6 +227,16 @@ fn run_op(sh: &Arc<Shared>, thread: usize, op: Op) {
       sh.late_probes.lock().unwrap().push((p, start, end));
     }
     Op::UnsubSubject => sh.a.clone().unsubscribe(),
+    Op::IsClosed => {
+      // nobody takes the handle in a script that samples it: borrow it without
+      // keeping the (uncontrolled) std mutex across scheduling points
+      let ptr: Option<*const BoxSubscriptionThreads> = sh.sub0.lock().unwrap().as_ref().map(|u| u as *const _);
+      if let Some(ptr) = ptr {
+        let ans = unsafe { (*ptr).is_closed() };
+        let end = sh.ctx.stamp();
+        sh.closed_samples.lock().unwrap().push((ans, start, end));
+      }
+    }
     Op::Unsubscribe => {
       let u = sh.sub0.lock().unwrap().take();
       match u {
@@ -298,6 +313,7 @@ pub fn script_scenario(prop: &str, shape: Shape, scripts: Vec<Vec<Op>>, oracle: 
         b,
         pipe_src: (shape, fin.clone()),
         sub0: Mutex::new(Some(sub0)),
+        closed_samples: Mutex::new(vec![]),
         late_probes: Mutex::new(vec![]),
         calls: Mutex::new(vec![]),
         ctx: ctx.clone(),
@@ -472,6 +488,35 @@ pub fn script_scenario(prop: &str, shape: Shape, scripts: Vec<Vec<Op>>, oracle: 
               format!("{prop}:finalize-count:{}", shape.name()),
               format!("the finalizer ran {n} times after {:?}", calls.iter().map(|c| c.op).collect::<Vec<_>>()),
             );
+          }
+        }
+      }
+      // ---- is_closed() soundness (C17): once a call has answered true, nothing is
+      // delivered any more and no later call answers false
+      {
+        assert!(
+          !(scripts.iter().any(|s| s.contains(&Op::IsClosed)) && scripts.iter().any(|s| s.contains(&Op::Unsubscribe))),
+          "MACHINERY: IsClosed and Unsubscribe in one scenario"
+        );
+        let samples = sh.closed_samples.lock().unwrap().clone();
+        for (ans, _s, e) in &samples {
+          if *ans {
+            for ev in p0.evs() {
+              if ev.enter > *e {
+                ctx.fail(
+                  format!("{prop}:delivered-after-closed:{}", shape.name()),
+                  format!("is_closed() answered true at stamp {e}, {:?} was delivered at {}", ev.note, ev.enter),
+                );
+              }
+            }
+            for (a2, s2, _) in &samples {
+              if !*a2 && *s2 > *e {
+                ctx.fail(
+                  format!("{prop}:closed-then-open:{}", shape.name()),
+                  format!("is_closed() answered true at stamp {e} and false to a call started at {s2}"),
+                );
+              }
+            }
           }
         }
       }
@@ -842,6 +887,28 @@ pub fn script_scenario(prop: &str, shape: Shape, scripts: Vec<Vec<Op>>, oracle: 
           ctx.fail(
             format!("{prop}:content:{}", shape.name()),
             format!("source emitted {a_items:?}, the early subscriber saw [{}]: {b}", fmt_notes(&notes)),
+          );
+        }
+      }
+      // ---- scheduler-moving operators (C07): every notification is its own pool
+      // task; whatever order the pool runs them in (re-sequencing is the known
+      // finding of engine E1), once all of them have run every item of a source
+      // that did not terminate and was not unsubscribed has been delivered, once
+      if matches!(shape, Shape::ObserveOn | Shape::Delay) {
+        let quiet = !calls
+          .iter()
+          .any(|c| !matches!(c.op, Op::NextA(_)));
+        let mut want: Vec<Item> = calls.iter().filter_map(|c| if let Op::NextA(v) = c.op { Some(v) } else { None }).collect();
+        let notes = p0.notes();
+        let mut got: Vec<Item> = notes.iter().filter_map(|n| if let Note::N(v) = n { Some(*v) } else { None }).collect();
+        want.sort();
+        got.sort();
+        let dup = got.windows(2).any(|w| w[0] == w[1]);
+        let invented = got.iter().any(|v| !want.contains(v));
+        if dup || invented || (quiet && got != want) {
+          ctx.fail(
+            format!("{prop}:lost-duplicated-or-invented:{}", shape.name()),
+            format!("source emitted {want:?} (no terminal, no unsubscribe: {quiet}), every scheduled task has run, delivered [{}]", fmt_notes(&notes)),
           );
         }
       }
@@ -1649,6 +1716,64 @@ pub fn ticker_scenario(kind: Ticker, scripts: Vec<Vec<Op>>, bound: u32, max_exec
   }
 }
 
+/// finalize_threads behind a subscription made by a scheduled task
+/// (`subscribe_on` / `delay_subscription`): the subscriber unsubscribes while the
+/// pool task may be anywhere in making that subscription
+pub fn finalize_subscribe_on_scenario(delayed: bool, bound: u32, max_execs: u64) -> Scenario {
+  Scenario {
+    name: format!(
+      "defer(subject).finalize_threads(f).{} || unsubscribe c<={bound}",
+      if delayed { "delay_subscription" } else { "subscribe_on" }
+    ),
+    sig: "finalize_threads+subscribe_on".into(),
+    bound,
+    max_execs,
+    body: Arc::new(move |ctx: &Arc<Ctx>, out: &mut Out| {
+      let mut a = Subj::default();
+      let fin = Arc::new(AtomicUsize::new(0));
+      let subs = Arc::new(AtomicUsize::new(0));
+      let (f2, s2, a2) = (fin.clone(), subs.clone(), a.clone());
+      let src = observable::defer(move || {
+        s2.fetch_add(1, Ordering::SeqCst);
+        a2.clone()
+      })
+      .finalize_threads(move || {
+        f2.fetch_add(1, Ordering::SeqCst);
+      });
+      let p0 = TProbe::new("p0", ctx);
+      let pipe: Pipe = if delayed {
+        src.delay_subscription(ticks(1), pool_scheduler()).box_it()
+      } else {
+        src.subscribe_on(pool_scheduler()).box_it()
+      };
+      let sub0 = pipe.actual_subscribe(p0.clone());
+      let u = shuttle::thread::spawn(move || sub0.unsubscribe());
+      u.join().unwrap();
+      let at = ctx.stamp();
+      drain_pool(true);
+      a.next(1);
+      let (n_fin, n_subs) = (fin.load(Ordering::SeqCst), subs.load(Ordering::SeqCst));
+      if n_fin > n_subs || (n_subs == 1 && n_fin != 1) {
+        ctx.fail(
+          "C15:finalize-count:finalize_threads+subscribe_on",
+          format!("the scheduled task subscribed the source {n_subs} times, unsubscribe() has returned and every task has run: the finalizer ran {n_fin} times"),
+        );
+      }
+      for e in p0.evs() {
+        if e.enter > at {
+          ctx.fail(
+            "C15:delivered-after-unsubscribe:finalize_threads+subscribe_on",
+            format!("{:?} was delivered after unsubscribe() had returned", e.note),
+          );
+        }
+      }
+      out.delivered = (n_fin + n_subs) as u64;
+      out.note(&vec![Note::N(n_fin as Item), Note::N(n_subs as Item)]);
+      out.trace.push(format!("source subscriptions {n_subs} finalizer runs {n_fin} p0 [{}]", fmt_notes(&p0.notes())));
+    }),
+  }
+}
+
 /// share_threads: A joins while B joins and leaves again
 pub fn share_leave_scenario(bound: u32, max_execs: u64) -> Scenario {
   Scenario {
@@ -1895,9 +2020,27 @@ pub fn plan(prop: &str, tier: Tier) -> Option<Plan> {
       let c = if q { 3 } else { 7 };
       sc.push(composite_scenario(1, c + 1, CAP));
       sc.push(composite_scenario(2, c, CAP));
+      let cs = if q { 2 } else { 3 };
+      // (not merge_all: a composite consults its members under its own lock, and an
+      // emission that appends a member holds a member's lock while it asks for the
+      // composite's: is_closed() concurrent with such an emission can dead-lock.
+      // No stated property covers is_closed() calls racing with emissions for
+      // blocking; see DESIGN §10, observations)
+      for shape in [Shape::Subject, Shape::Merge, Shape::Zip, Shape::Finalize] {
+        for s in [
+          vec![vec![Op::NextA(1), Op::CompleteA], vec![Op::IsClosed, Op::IsClosed]],
+          vec![vec![Op::NextA(1), Op::ErrorA], vec![Op::IsClosed]],
+        ] {
+          if shape.two_inputs() && s[0].contains(&Op::CompleteA) {
+            sc.push(script_scenario("C17", shape, vec![vec![Op::NextA(1), Op::CompleteA, Op::CompleteB], vec![Op::IsClosed, Op::IsClosed]], Oracle::Serialise, cs, CAP));
+          } else {
+            sc.push(script_scenario("C17", shape, s, Oracle::Serialise, cs, CAP));
+          }
+        }
+      }
       Some(Plan {
         scenarios: sc,
-        rule: "MultiSubscriptionThreads shared by one or two threads appending a live child each and one thread unsubscribing the composite through a clone; every schedule within the preemption bound; oracle once all calls have returned: every remaining handle reports closed and every child has been unsubscribed, whichever of append / unsubscribe came first".into(),
+        rule: "MultiSubscriptionThreads shared by one or two threads appending a live child each and one thread unsubscribing the composite through a clone; every schedule within the preemption bound; oracle once all calls have returned: every remaining handle reports closed and every child has been unsubscribed, whichever of append / unsubscribe came first; and a thread sampling is_closed() on the subscription of a subject / merge_threads / zip_threads / finalize_threads pipeline while another thread emits and terminates the source: nothing is delivered after a call answered true, and no later call answers false".into(),
         bounds: json!({"preemptions": c}),
         assumptions: vec!["sequentially consistent memory".into()],
       })
@@ -2050,10 +2193,33 @@ pub fn plan(prop: &str, tier: Tier) -> Option<Plan> {
       ] {
         sc.push(script_scenario("C15", Shape::Finalize, s, Oracle::FinalizeOnce, c - 1, CAP));
       }
+      for delayed in [false, true] {
+        sc.push(finalize_subscribe_on_scenario(delayed, c, CAP));
+      }
       Some(Plan {
         scenarios: sc,
-        rule: "subject.finalize_threads(f): a terminating thread (complete / error, with or without a preceding item) against an unsubscribing thread, and with a second terminating thread; every schedule within the preemption bound; oracle: the finalizer ran exactly once when all threads have returned".into(),
+        rule: "subject.finalize_threads(f): a terminating thread (complete / error, with or without a preceding item) against an unsubscribing thread, and with a second terminating thread; every schedule within the preemption bound; oracle: the finalizer ran exactly once when all threads have returned; and finalize_threads behind subscribe_on / delay_subscription with the subscriber unsubscribing while the pool task may be anywhere in making the subscription: once unsubscribe() has returned and every task has run, the finalizer ran exactly as often as the source was subscribed (0 or 1) and nothing is delivered".into(),
         bounds: json!({"preemptions_two_threads": c, "preemptions_three_threads": c - 1}),
+        assumptions: vec!["sequentially consistent memory".into()],
+      })
+    }
+    "C07" => {
+      let c = if q { 1 } else { 3 };
+      for shape in [Shape::ObserveOn, Shape::Delay] {
+        for s in [
+          vec![vec![Op::NextA(1), Op::NextA(2)]],
+          vec![vec![Op::NextA(1), Op::NextA(2), Op::NextA(3)]],
+          vec![vec![Op::NextA(1)], vec![Op::NextA(2)]],
+          vec![vec![Op::NextA(1), Op::CompleteA]],
+        ] {
+          let n: usize = s.iter().map(|x| x.len()).sum();
+          sc.push(script_scenario("C07", shape, s, Oracle::Serialise, if n >= 3 { c } else { c + 1 }, CAP));
+        }
+      }
+      Some(Plan {
+        scenarios: sc,
+        rule: "observe_on_threads and delay_threads over a SubjectThreads with every scheduled notification its own controlled pool task (a k-worker pool that may run, and overlap, them in any order): one or two emitting threads; every schedule within the preemption bound; oracle once every task has run: nothing invented or duplicated, and every item of a source that neither terminated nor was unsubscribed has been delivered (the order in which independent tasks deliver is engine E1's known finding and is not asserted here); no overlapping callbacks, grammar, nothing blocks".into(),
+        bounds: json!({"preemptions": c}),
         assumptions: vec!["sequentially consistent memory".into()],
       })
     }
